@@ -2068,8 +2068,9 @@ class _G:
             if rng.random() < P['p_multiline']:
                 lines.append(' '.join(cur))
                 cur = []
-                if rng.random() < 0.3:
-                    lines.append('')                       # paragraph break
+                r = rng.random()
+                if r < 0.3:                                # paragraph break: one blank line, sometimes two or three
+                    lines.extend([''] * (1 if r < 0.2 else 2 if r < 0.27 else 3))
         if cur:
             lines.append(' '.join(cur))
         while lines and lines[-1] == '':
